@@ -432,7 +432,7 @@ def plan(plan, tier, seed, prop="C01", selector=None, twice=None):
         plan.harness_files[gen_path(op, prop)] = kgen.module_text(hs, "vkreplay_%s_%s" % (prop.lower(), op))
         plan.functions.append("%s: %s" % (d["file"], "NegateS/NegateV" if op == "neg" else "NotS/NotV"))
     for crate, hmap in groups.items():
-        plan.kani.append(dict(package=crate, filters=[pfx], harness=hmap, timeout=3300,
+        plan.kani.append(dict(package=crate, filters=[pfx], harness=hmap, timeout=(3300 if tier == "quick" else 1800),
                               replay_entry=lambda h, p=prop.lower(): "vkreplay_%s_%s" % (p, h.split("_")[1])))
     if not only and prop == "C01":
         verus_scalar_units(plan)
